@@ -622,6 +622,9 @@ void run_extra(Ctx &c) {
 			{ frg::optional<bool> x(csrc); same(x, "copy construction from a const lvalue"); }
 			{ frg::optional<bool> x = src; same(x, "copy initialisation from a non-const lvalue"); }
 			{ frg::optional<bool> t2(src); frg::optional<bool> x(std::move(t2)); same(x, "move construction"); }
+			{ const frg::optional<bool> t3(csrc); frg::optional<bool> x(std::move(t3)); same(x, "construction from a const rvalue (std::move of a const optional)"); }
+			{ const frg::optional<bool> t3(csrc); frg::optional<bool> x; x = std::move(t3); same(x, "assignment from a const rvalue"); }
+			{ struct Holder { const frg::optional<bool> o; }; Holder h1{csrc}; Holder h2(std::move(h1)); same(h2.o, "the implicit move constructor of a struct with a const optional member"); }
 			{ frg::optional<bool> x; x = src; same(x, "copy assignment from a non-const lvalue"); }
 			{ frg::optional<bool> x(true); x = csrc; same(x, "copy assignment from a const lvalue over an engaged optional"); }
 			{ frg::optional<bool> t2(src); frg::optional<bool> x; x = std::move(t2); same(x, "move assignment"); }
